@@ -225,9 +225,20 @@ class GatedEvent:
 class GatedTime:
     """Stand-in for the `time` module inside pynetdicom.association / pynetdicom.dul."""
 
-    def __init__(self, ctl: Controller, real):
+    def __init__(self, ctl: Controller, real, clock=None):
         self._ctl = ctl
         self._real = real
+        self._clock = clock
+
+    # clock readings come from the virtual clock when one is installed
+    def time(self):
+        return self._clock.time() if self._clock is not None else self._real.time()
+
+    def monotonic(self):
+        return self._clock.monotonic() if self._clock is not None else self._real.monotonic()
+
+    def perf_counter(self):
+        return self._clock.perf_counter() if self._clock is not None else self._real.perf_counter()
 
     def sleep(self, s):
         fn = _caller(2)
